@@ -154,6 +154,10 @@ def call_tree(ctx, pid, ints=None, floor_note=True):
                 for nm in shared_state.resets_moved_before_loop(f.node, ref_fn):
                     ctx.bad("fn:%s:reset-moved:%s" % (q.split(".", 1)[-1], nm), where,
                             "%s resets `%s` before the loop that assigns it; the reviewed function resets it after that loop and then accumulates into it: the accumulation now starts from what the last iteration left there" % (q, nm))
+                for M_, N_, B_, S_ in shared_state.bypassed_overrides(ctx.p, f.node, ref_fn, is_reviewed):
+                    ctx.bad("fn:%s:bypassed-override:%s" % (q.split(".", 1)[-1], M_), where,
+                            "%s used to call .%s(..) and now calls .%s(..), a method added to %s since the review; %s overrides %s but not %s, so for its objects the call no longer reaches its own version (%s.%s)"
+                            % (q, M_, N_, B_.qualname, S_.qualname, M_, N_, S_.qualname, M_))
                 was_ = shared_state.float_ops(ref_fn)
                 for sp_, node_ in sorted(shared_state.float_ops(f.node).items()):
                     if sp_ not in was_:
